@@ -145,6 +145,8 @@ bufferevent_socket_outbuf_cb(struct evbuffer *buf,
 	}
 }
 
+static void bufferevent_writecb(evutil_socket_t fd, short event, void *arg);
+
 static void
 bufferevent_readcb(evutil_socket_t fd, short event, void *arg)
 {
@@ -163,6 +165,16 @@ bufferevent_readcb(evutil_socket_t fd, short event, void *arg)
 		 * timeout, since a read has occurred */
 		what |= BEV_EVENT_TIMEOUT;
 		goto error;
+	}
+
+	if (bufev_p->connecting) {
+		/* The connection has just completed and data arrived with it.
+		 * Let the write callback report the outcome of the connect
+		 * before any of that data is delivered. */
+		bufferevent_writecb(fd, EV_WRITE, arg);
+		if (bufev_p->connecting ||
+		    !event_pending(&bufev->ev_read, EV_READ, NULL))
+			goto done;
 	}
 
 	input = bufev->input;
